@@ -647,9 +647,53 @@ class MapV:
         old = self.get(g, k)
         for kk, gk in self.key_cases(g, k):
             h = c.and2(g, gk)
-            self.v[kk] = merge(h, v, self.v[kk])
+            if h == F:
+                continue
+            self.v[kk] = v if h == T else unfreeze(merge(h, clone(v), self.v[kk]))
             self.p[kk] = c.or2(self.p[kk], h)
         return old
+
+    def union_with(self, other, fn):
+        """WBTreeMap::union: keys of both; fn(key, left value, right value) for common keys, in that operand order"""
+        c = CTX.c
+        r = self.__class__(U=self.U) if isinstance(self, KeySet) else MapV(self.mkdefault, self.U, self.vty)
+        for k in range(self.U):
+            pa, pb = self.p[k], other.p[k]
+            both = c.and2(pa, pb)
+            r.p[k] = c.or2(pa, pb)
+            if isinstance(self, KeySet):
+                continue
+            val = UNDEF
+            if pb != F:
+                val = clone(other.v[k])
+            if pa != F:
+                val = merge(pa, clone(self.v[k]), val)
+            if both != F:
+                val = merge(both, fn(both, k, clone(self.v[k]), clone(other.v[k])), val)
+            r.v[k] = unfreeze(val)
+        return r
+
+    def difference_with(self, other, fn):
+        """WBTreeMap::difference: keys of self not in other; for common keys fn(key, left, right) -> Option<V> decides"""
+        c = CTX.c
+        r = self.__class__(U=self.U) if isinstance(self, KeySet) else MapV(self.mkdefault, self.U, self.vty)
+        for k in range(self.U):
+            pa, pb = self.p[k], other.p[k]
+            both = c.and2(pa, pb)
+            only = c.and2(pa, -pb)
+            if isinstance(self, KeySet):
+                res = fn(both, k, UNIT, UNIT) if both != F else NONE
+                r.p[k] = c.or2(only, c.and2(both, res.some))
+                continue
+            val = clone(self.v[k]) if only != F else UNDEF
+            keep = only
+            if both != F:
+                res = fn(both, k, clone(self.v[k]), clone(other.v[k]))
+                keep = c.or2(keep, c.and2(both, res.some))
+                val = merge(c.and2(both, res.some), res.val, val)
+            r.p[k] = keep
+            r.v[k] = unfreeze(val)
+        return r
 
     def remove(self, g, k):
         self._mut()
@@ -700,6 +744,38 @@ class MapV:
         m.p = list(self.p)
         m.v = [clone(x) for x in self.v]
         return m
+
+
+class KeySet(MapV):
+    """WBTreeSet by contract: an ordered finite set of keys (a MapV whose values are ignored)"""
+    kind = "KeySet"
+
+    def __init__(self, U=None):
+        MapV.__init__(self, mkdefault=lambda: UNIT, U=U)
+        self.v = [UNIT] * self.U
+
+    def clone(self):
+        m = KeySet(self.U)
+        m.p = list(self.p)
+        return m
+
+
+def unfreeze(v):
+    """a freshly built (merged) value may be mutated again: it is not aliased by anything"""
+    if isinstance(v, (VecL, VecA, MapV, SetV, StructV)):
+        v.frozen = False
+    if isinstance(v, StructV):
+        for x in v.f.values():
+            unfreeze(x)
+    elif isinstance(v, MapV):
+        for x in v.v:
+            unfreeze(x)
+    elif isinstance(v, OptV):
+        unfreeze(v.val)
+    elif isinstance(v, tuple):
+        for x in v:
+            unfreeze(x)
+    return v
 
 
 class SetV:
@@ -957,7 +1033,7 @@ def merge(cnd, a, b):
         r.frozen = True
         return r
     if isinstance(a, MapV) and isinstance(b, MapV):
-        m = MapV(a.mkdefault, a.U, a.vty)
+        m = KeySet(a.U) if isinstance(a, KeySet) else MapV(a.mkdefault, a.U, a.vty)
         m.p = [c.ite(cnd, x, y) for x, y in zip(a.p, b.p)]
         m.v = [merge(cnd, x, y) for x, y in zip(a.v, b.v)]
         m.frozen = True
